@@ -217,7 +217,7 @@ def conclude(prop, pack, pack_name, a, seed, t0, results, params_of, extra_cov=N
         print(f"UNDECIDED {oid}: {why}")
     for uid, c in crashes:
         print(f"CRASH {uid}: {c}")
-    if missing:
+    if missing and not violations:
         print(f"UNDECIDED: {len(missing)} ledger obligations were not generated on this run "
               f"(contract no longer binds), e.g. {missing[:3]}")
     if vacuous and a.verbose:
